@@ -43,6 +43,16 @@ theorem hash_reference_eq_java (h n : Int) :
 theorem hash_consistent (refAbs : Bool) (h₁ h₂ n : Int) (e : h₁ = h₂) :
     hashChoice refAbs h₁ n = hashChoice refAbs h₂ n := by rw [e]
 
+/-- with the default FNV-1a hasher: in range and a function of the key BYTES (so equal keys, including keys that
+    encode to zero bytes, always map to the same partition) -/
+theorem hash_key_range (refAbs : Bool) (key : List UInt8) (n : Int) (hn : 0 < n) :
+    0 ≤ hashKeyChoice refAbs key n ∧ hashKeyChoice refAbs key n < n := hash_range refAbs _ n hn
+
+theorem hash_key_consistent (refAbs : Bool) (k₁ k₂ : List UInt8) (n : Int) (e : k₁ = k₂) :
+    hashKeyChoice refAbs k₁ n = hashKeyChoice refAbs k₂ n := by rw [e]
+
+example : fnv1a32 [] = 2166136261 ∧ fnv1a32 [0x61] = 3826002220 ∧ hashKeyChoice true [] 50 = (2166136261 % 2147483648) % 50 := by decide
+
 /-- round-robin invariant and range: for every state reachable from 0 and every positive count the choice
     is in range, and the state stays within int32 (no wrap on `p.partition++`). -/
 theorem rr_step_range (p n : Int) (hp : 0 ≤ p) (hn : 0 < n) :
